@@ -44,12 +44,14 @@ def jobs(ctx: Ctx, quick: bool):
                 {
                     "family": fam,
                     "rseed": rng.randint(0, 10**6),
-                    "free": rng.choice([1, 2, 5, 10]),
-                    "smt": rng.choice([1, 2, 5]),
+                    "free": rng.choice([1, 1, 2, 5, 10]),
+                    "smt": rng.choice([1, 2, 3, 5, 10]),
                     "unique": rng.choice([True, False]),
                     "weights": rng.choice([None, (12, 1, 2, 0, 0), (5, 2, 1, 1, 1), (1, 1, 1, 10, 10)]),
-                    "n": 8 if quick else 25,
-                    "timeout": 25 if quick else 90,
+                    # CSV / XML: the first solutions are the smallest documents (header-only files, single tags); ask for
+                    # enough of them that multi-record files and nested elements are reached
+                    "n": ({"csv": 40, "xml": 20, "rest": 10, "tar": 8} if quick else {"csv": 150, "xml": 60, "rest": 30, "tar": 25})[fam],
+                    "timeout": 30 if quick else 120,
                 }
             )
     return out
@@ -226,6 +228,7 @@ def judge(ctx: Ctx, job, res):
         replay = {"family": fam, "input": s["str"], "settings": settings}
         if fam == "csv":
             ok, rows = a[0], a[1]
+            ctx.count("csv_records", "1" if len(rows) <= 1 else ("2" if len(rows) == 2 else "3+"))
             if ok is not True:
                 ctx.violation("csv:column-counts-differ", f"generated CSV file has records with different numbers of fields {rows}: {s['str'][:120]!r}", replay)
         elif fam == "xml":
@@ -260,7 +263,7 @@ def run(ctx: Ctx):
     if not os.path.exists(os.path.join(ROOT, "lean", ".lake", "build", "bin", "isladrv")):
         return "infra"
     quick = ctx.tier == "quick"
-    for job, res in run_jobs(jobs(ctx, quick), wall=60 if quick else 240):
+    for job, res in run_jobs(jobs(ctx, quick), wall=75 if quick else 300):
         judge(ctx, job, res)
     ctx.obligation("every generated input of the shipped formalizations is accepted by the independent executable specification", not ctx.violations)
     if not ok and not ctx.violations:
